@@ -155,6 +155,10 @@ class Dataset:
         if len(nb_occur_elements_in_rankings) == 0:
             raise EmptyDatasetException("No elements found in input rankings")
 
+        # the two mappings are rebuilt from scratch: when the rankings are re-analysed after a removal of elements
+        # or of rankings, the previous ids must not survive
+        self._mapping_element_id = {}
+        self._mapping_id_element = {}
         id_element: int = 0
         for key, _ in nb_occur_elements_in_rankings.items():
             self._mapping_element_id[key] = id_element
